@@ -16,6 +16,10 @@ cargo build --release 2>&1 | tail -2
 bin=$tgt/release/cfbsim
 cd "$here/sched" && sed -i "s#/verif/target/sched#$tgt/sched#" .cargo/config.toml
 export VERIF_NO_EVIDENCE=1
+# witnesses, known findings, replays and scratch files of THIS snapshot (not of the live /verif,
+# whose witnesses may belong to fixes this snapshot's repository copy does not have yet)
+export VERIF_HOME=$here
+mkdir -p $here/target/tmp $here/replays
 bad=0; n=0
 for seed in $(seq $first $last); do
   for c in $checks; do
